@@ -22,7 +22,7 @@ func init() {
 			"(3) sibling agreement of the paginated seek in the raft backend: every bolt cursor Seek whose position derives from filepath.Join(prefix, after) lies behind 'after is non-empty and the joined position still starts with the prefix, else seek to the prefix' — in the plain listing and in the transactional one alike (F4, repaired by 54d7235); the iteration stops at the first key without the prefix; list verification replays through the plain listing; the seek position of a paginated raft listing is never a cleaned path (filepath.Join/Clean of 'after' changes the byte order for values such as './x' or 'a/../x' and skips entries): it is prefix + after; the two paginate-by-slicing implementations (plugin GRPC client, keysutil encrypted storage) agree on 'skip the element equal to after' and 'limit applies only when positive'; " +
 			"(4) the recursive scan/clear helpers list the view they were given page by page with 'after' taken from the previous page, descend only into entries with a trailing slash, report only the others, build every path as directory + listed name, and delete exactly the reported paths from the same view; " +
 			"(5) the read cache is filled and invalidated only on the success edge of the wrapped operation, under the per-key lock, under the operation's key; a transaction's writes invalidate the parent cache only after the commit succeeded; " +
-			"second-tier mechanisms: the file backend's paginate-by-slicing is held to the sibling rules (search key is 'after', the element equal to 'after' is skipped, the cut applies only to a positive limit) and sorts the names before any search, slice or return of a non-empty listing; the in-memory walk's page-full test counts the accumulator the listing returns; the plain and transactional raft listings and the in-memory walk compare 'after' with the very entry name they emit on that decision (after folder collapsing); a failed in-memory commit restores the parent tree from a snapshot taken before the replay; a raft transaction's Put/Delete reach a nil-error return only past t.updates[key] = a put record carrying the caller's key and value / a delete record without contents; a cache's LRU is written only by its constructor with a fresh LRU; HandleListPage lists the storage, prefix and limit it was given with 'after' taken from the end of the previous page and ends normally only on an empty page, a non-positive limit or a page shorter than the limit; a transaction begun on a prefix view wraps the transaction begun on the view's storage under the view's own prefix; as a family over every type with Commit and Rollback whose Commit commits a handle reached from the receiver (a transaction layer wrapping another transaction), each Get/Put/Delete/List/ListPage it declares hands that same handle to a call (or delegates to a sibling operation that does), never only the non-transactional parent; the file backend does not name the file of a key through a path-cleaning function of the key unless validatePath refuses keys that cleaning changes (known finding c13-file-trailing-slash); in both raft listings every bolt cursor move (Seek/Next/First/Last/Prev) hands its key to the loop's nil/prefix test before any other move is reachable (one advance per key examined; the in-memory walk has no cursor of its own).",
+			"second-tier mechanisms: the file backend's paginate-by-slicing is held to the sibling rules (search key is 'after', the element equal to 'after' is skipped, the cut applies only to a positive limit) and sorts the names before any search, slice or return of a non-empty listing; the in-memory walk's page-full test counts the accumulator the listing returns; the plain and transactional raft listings and the in-memory walk compare 'after' with the very entry name they emit on that decision (after folder collapsing); a failed in-memory commit restores the parent tree from a snapshot taken before the replay; a raft transaction's Put/Delete reach a nil-error return only past t.updates[key] = a put record carrying the caller's key and value / a delete record without contents; a cache's LRU is written only by its constructor with a fresh LRU; HandleListPage lists the storage, prefix and limit it was given with 'after' taken from the end of the previous page and ends normally only on an empty page, a non-positive limit or a page shorter than the limit; a transaction begun on a prefix view wraps the transaction begun on the view's storage under the view's own prefix; as a family over every type with Commit and Rollback whose Commit commits a handle reached from the receiver (a transaction layer wrapping another transaction), each Get/Put/Delete/List/ListPage it declares hands that same handle to a call (or delegates to a sibling operation that does), never only the non-transactional parent; the file backend does not name the file of a key through a path-cleaning function of the key unless validatePath refuses keys that cleaning changes (known finding c13-file-trailing-slash); in both raft listings every bolt cursor move (Seek/Next/First/Last/Prev) hands its key to the loop's nil/prefix test before any other move is reachable (one advance per key examined; the in-memory walk has no cursor of its own); in scanViewPaginated every path from a successful ListPage to the normal end of that directory's paging (the outer loop's test or the final return) crosses 'the page was empty', 'the page was shorter than pageSize', or all three conjuncts of the single-empty-entry case (exactly one entry, that entry is \"\", pageSize above one), operands selected by identity; inside a page every entry is reported to the callback or queued on the frontier before the next one.",
 		NotDecided: "get-after-put, immediate-children semantics, sorted order and 'paginated listing = slice of the full listing' as equalities over values and orders (they need a model and execution); the base implementations' own walks (inmem radix walk, file directory read, postgresql SQL, bolt cursor arithmetic beyond the seek guard); backends outside this repository.",
 		Run:        runC13,
 	})
